@@ -227,5 +227,33 @@ theorem parseCfgFixed_print (c : Config) (hne : c.streamers ≠ []) (r : List To
       simp only [stypeName_ne_system, if_false]
       exact key
 
+/-! ### the parser as it is (keys not checked) -/
+
+theorem parseSPLoose_print (p : SPAttr) (r : List Tok) : parseSPLoose (printSP p ++ r) = some (p, r) := by
+  unfold printSP parseSPLoose
+  simp only [List.cons_append, List.append_assoc, List.nil_append, parseInts_print]
+
+/-- whatever the keyword-checking parser accepts, the loose one accepts with the same result -/
+theorem parseSP_sub_loose (toks : List Tok) (x : SPAttr × List Tok) (h : parseSP toks = some x) :
+    parseSPLoose toks = some x := by
+  unfold parseSP at h
+  unfold parseSPLoose
+  split at h
+  · next k1 r =>
+    split at h
+    · cases h
+    · split at h
+      · next ub k2 r2 hub =>
+        split at h
+        · cases h
+        · split at h
+          · next ts k3 r3 hts =>
+            split at h
+            · cases h
+            · exact h
+          · cases h
+      · cases h
+  · cases h
+
 end Syntax
 end SnaxVerif
